@@ -24,7 +24,20 @@ def own_name_guard(eng: Engine, fn: FuncInfo, node: ast.AST) -> bool:
     def is_guard(n: Node) -> bool:
         if n.kind != 'assume':
             return False
-        for e, pol in split_conj(expand_aliases(fn, n.ast), n.polarity):
+        ex = expand_aliases(fn, n.ast)
+        atoms = split_conj(ex, n.polarity)
+        if isinstance(ex, ast.BoolOp) and isinstance(ex.op, ast.And) and not n.polarity:
+            # `if session and username == own: return` — on the false edge either there is no session or the name differs:
+            # acceptable iff the negation of EVERY conjunct is one of the two accepted facts
+            def neg_ok(c):
+                a = cmp_atom(c)
+                if a and a[0] == 'eq':
+                    s = {unparse(a[1]), unparse(a[2])}
+                    return 'message.username' in s and any(x.endswith('_session.user.name') for x in s)
+                return unparse(c).endswith('_session')
+            if all(neg_ok(c) for c in ex.values):
+                return True
+        for e, pol in atoms:
             a = cmp_atom(e)
             if a and a[0] == 'eq' and not pol:
                 s = {unparse(a[1]), unparse(a[2])}
